@@ -86,6 +86,8 @@ func (Area) Exec(input string) string {
 		return fake.ShowMD(out)
 	case "build":
 		return execBuild(f[1])
+	case "rmd":
+		return execRMD(f[1], fake.ParseList(f[2]), string(common.MustUnHex(f[3])), common.MustUnHex(f[4]))
 	case "fwd":
 		return execFwd(parseOpts(f[1:7]), fake.ParseMD(f[7]), fake.ParseMD(f[8]), fake.ParseMD(f[9]), f[10])
 	case "e2e":
@@ -788,6 +790,7 @@ func (Area) Gen(r *rand.Rand, tier string, emit func(string)) {
 			emit(fmt.Sprintf("e2e %s %s %s %s %s %s %s", entry, showOpts(o), fake.ShowMD(sent), fake.ShowPairs(pairs), fake.ShowMD(thdr), fake.ShowMD(ttrl), genMode(r)))
 		}
 	}
+	genRMD(r, tier, emit)
 }
 
 // binaryValue: bytes a gRPC client may send under a -bin key — text that happens to be valid base64 (padded, unpadded),
